@@ -45,7 +45,7 @@ func TestDemoReaderAfterTruncateAndAgeRoll(t *testing.T) {
 		t.Fatalf("got %d", off)
 	}
 	time.Sleep(100 * time.Millisecond) // reader parks at the end of the segment
-	now += int64(11 * time.Second)    // the segment is now older than MaxSegmentAge
+	now += int64(11 * time.Second)     // the segment is now older than MaxSegmentAge
 	if _, err := l.Append([]*Message{{Value: []byte("w"), Timestamp: now}}); err != nil {
 		t.Fatal(err)
 	}
